@@ -1,11 +1,22 @@
 #!/bin/bash
-# usage: seedtest.sh <patch.diff> <prop>...   — applies a seeded change to /repo, runs the checks, reverts.
+# usage: seedtest.sh <patch.diff> <prop>...   — applies a seeded change to /repo (or, if it no longer applies to HEAD,
+# to a scratch worktree of the pinned snapshot), runs the checks, and removes every trace.
 patch="$1"; shift
+SNAP=2b0dff6
 cd /repo || exit 1
 if [ -n "$(git status --porcelain)" ]; then echo "/repo not clean"; exit 1; fi
-git apply "$patch" || { echo "patch does not apply"; exit 1; }
-for p in "$@"; do
-  echo "== $p"
-  (cd /verif && ./check "$p" --no-evidence 2>&1 | grep -E "^(FINDING|UNDECIDED|SUMMARY)" | cut -c1-400)
-done
-git checkout -- . ; git clean -fdq
+if git apply --check "$patch" 2>/dev/null; then
+  git apply "$patch"
+  for p in "$@"; do echo "== $p"; (cd /verif && ./check "$p" --no-evidence 2>&1 | grep -E "^(FINDING|UNDECIDED|SUMMARY)" | cut -c1-400); done
+  git checkout -- . ; git clean -fdq
+else
+  wt=$(mktemp -d /tmp/seedwt.XXXX); rmdir "$wt"
+  git worktree add -q --detach "$wt" $SNAP || exit 1
+  if (cd "$wt" && git apply "$patch"); then
+    echo "(applied to the pinned snapshot $SNAP in a scratch worktree; pre-fix findings of the snapshot are expected too)"
+    for p in "$@"; do echo "== $p"; (cd /verif && VERIF_REPO="$wt" ./check "$p" --no-evidence 2>&1 | grep -E "^(FINDING|UNDECIDED|SUMMARY)" | cut -c1-400); done
+  else
+    echo "patch applies neither to HEAD nor to the snapshot"
+  fi
+  git worktree remove --force "$wt"
+fi
